@@ -288,13 +288,20 @@ def run_case(ctx, idx):
     for k, p in (("image", .3), ("mask", .2), ("contour", .2), ("trace", .2)):
         if rng.random() < p:
             kinds.add(k)
+    big = idx % 40 == 7
+    if big:
+        # a long measurement (scalar features only): more events than any block a hash, a
+        # copy or an index translation may work in; edits concentrate on the last events
+        n = int(rng.choice([65536 + 3000, 65536 + 9001, 2 * 65536 + 4100, 100003]))
+        kinds = {"scalar"}
+        ctx.count("long_measurements")
     model = gd.gen_model(rng, n=n, kinds=kinds, hostile_logs=False, realistic=True, special=0.1,
-                         max_scalar=4, roi=(8, 8))
+                         max_scalar=1 if big else 4, roi=(8, 8))
     model["features"]["frame"] = np.cumsum(rng.integers(1, 4, n))
     x = rng.uniform(0, 1, n)           # the feature the range filters act on
     model["features"]["aspect"] = x
     tmp = boot.scratch()
-    use_file = bool(rng.random() < 0.4)
+    use_file = bool(rng.random() < 0.4) and not big
     path = tmp / f"c04_{idx}.rtdc"
     if use_file:
         gd.write_model(path, model)
@@ -302,7 +309,7 @@ def run_case(ctx, idx):
     else:
         root = dclab.new_dataset(dict(model["features"]))
         root.config.update({s: dict(kv) for s, kv in model["meta"].items()})
-    depth = int(rng.integers(1, 5))
+    depth = int(rng.integers(1, 5)) if not big else int(rng.integers(2, 4))
     levels = [root]
     for _ in range(depth):
         levels.append(dclab.new_dataset(levels[-1]))
@@ -316,9 +323,25 @@ def run_case(ctx, idx):
     try:
         youngest.rejuvenate()
         current = True          # all levels have their current size
-        for step in range(int(rng.integers(3, 31))):
+        for step in range(int(rng.integers(3, 31)) if not big else int(rng.integers(6, 12))):
             r = rng.random()
-            if r < 0.30:
+            if big:
+                # (ranges and manual exclusions dominate the long cases)
+                r = float(rng.choice([0.1, 0.4, 0.4, 0.45, 0.9, 0.9, r]))
+            if big and rng.random() < 0.4:
+                # the root's selection changes among its last events only, the number of
+                # selected events stays the same (one leaves, one that had left comes back)
+                tail = np.arange(max(0, n - 3000), n)
+                man = np.asarray(root.filter.manual)
+                on, off = tail[man[tail]], tail[~man[tail]]
+                if len(on):
+                    root.filter.manual[int(rng.choice(on))] = False
+                if len(off) and rng.random() < 0.8:
+                    root.filter.manual[int(rng.choice(off))] = True
+                hist.append(["root manual selection changed among the last events"])
+                current = False
+                changed_since = True
+            elif r < 0.30:
                 L = int(rng.integers(0, len(levels) - 1))   # a level that has a child
                 lo, hi = sorted(rng.uniform(-0.1, 1.1, 2))
                 if rng.random() < 0.3:
@@ -336,9 +359,14 @@ def run_case(ctx, idx):
                     check_exclusions(ctx, levels, excluded, hist)
                     current = True
                 L = int(rng.integers(1, len(levels)))
+                if big and rng.random() < 0.8:
+                    L = len(levels) - 1       # (mostly the youngest: the members in between
+                    #                            keep byte-identical filter arrays)
                 if len(levels[L]) == 0:
                     continue
                 pos = int(rng.integers(0, len(levels[L])))
+                if big:
+                    pos = len(levels[L]) - 1 - int(rng.integers(0, min(len(levels[L]), 2000)))
                 ridx = root_indices(levels[L])
                 levels[L].filter.manual[pos] = False
                 excluded[L].add(int(ridx[pos]))
